@@ -1,6 +1,9 @@
 /-
 C06: notices, list markers, hyphenation and spelling variants are ignored — the
 tokenizer part, for EVERY environment unless a theorem names the Go tables.
+Two statements need a fact about the environment that `EnvWF` does not give (marked
+`-- ADJUSTED:` with the counterexample); each has a `_go` companion showing the Go tables
+satisfy the added hypotheses.
 
 What is NOT true of the code, and therefore not claimed (known_findings.json):
 a marker of the form `a)` is not dropped (`letter_paren_not_header`); after a
@@ -16,10 +19,6 @@ import LC.Proofs.Tok06
 
 namespace LC.V2Tok
 open LC.Utf8
-
-/-- the words a line leaves in the line buffer when scanned from a clean state -/
-def lineBufOf (E : Env) (t : State) : List Word :=
-  t.linebuf ++ (if t.obuf ≠ [] then [flushWord E t.obuf] else [])
 
 /-- A notice line: a whole line whose words read as a copyright notice or date adds exactly one
 Copyright pseudo-match on its line, adds no token, and moves on to the next line with nothing
@@ -55,19 +54,56 @@ theorem marker_examples (u : Word → Word) :
     header (goEnv u) (lit "a)") = false :=
   marker_examples' u
 
-/-- Hyphenation: a word split by hyphen + newline (+ indentation) is accumulated as the same word. -/
-theorem hyphen_join_word (E : Env) (wf : EnvWF E) (s : State) (x sp : List Rune) (c : Rune)
+/-- Hyphenation: a word split by hyphen + newline (+ indentation) is accumulated as the same word.
+
+-- ADJUSTED: hypotheses `hhs` and `hhc` added. `EnvWF` says nothing about the hyphen, and for an
+arbitrary environment the statement is false. Counterexamples (both environments satisfy `EnvWF`;
+letters 'a','b', no digits, `toLower = id`):
+ * hyphen a space (`isSpace r := r = 32 ∨ r = 10 ∨ r = 45`, `punct := none`), `s = {}`, `x = [97]`,
+   `sp = [32]`, `c = 98`: the left side is `[98]` (the hyphen flushes the word), the right `[97, 98]`;
+ * `punct 45 = some [95]` (spaces 32, 10): the newline finds no trailing hyphen and flushes the
+   word, left side `[98]`, right side `[97, 98]`.
+`hhc` is exactly what `step` appends for the hyphen; the Go tables satisfy both (`goEnv_hyphen`). -/
+theorem hyphen_join_word (E : Env) (wf : EnvWF E)
+    (hhs : E.isSpace hyphen = false)
+    (hhc : (match E.punct hyphen with | some rep => rep.map E.toLower | none => [E.toLower hyphen]) = [hyphen])
+    (s : State) (x sp : List Rune) (c : Rune)
     (hx : (scanFrom E true s x).obuf ≠ []) (hxd : (scanFrom E true s x).deferredEOL = false)
     (hsp : ∀ r ∈ sp, E.isSpace r = true ∧ r ≠ nl) (hc : E.isSpace c = false) (hcn : c ≠ nl) :
     (scanFrom E true s (x ++ [hyphen, nl] ++ sp ++ [c])).obuf = (scanFrom E true s (x ++ [c])).obuf :=
-  hyphen_join_word' E wf s x sp c hx hxd hsp hc hcn
+  hyphen_join_word' E wf hhs hhc s x sp c hx hxd hsp hc hcn
 
-/-- Spelling variants: a listed spelling and its replacement leave the same token. -/
-theorem interchangeable_same_token (E : Env) (pos : Nat) (a b : Word)
+open LC.V2Env in
+/-- the Go tables satisfy the hypotheses added to `hyphen_join_word` -/
+theorem hyphen_join_word_go (u : Word → Word) (s : State) (x sp : List Rune) (c : Rune)
+    (hx : (scanFrom (goEnv u) true s x).obuf ≠ []) (hxd : (scanFrom (goEnv u) true s x).deferredEOL = false)
+    (hsp : ∀ r ∈ sp, (goEnv u).isSpace r = true ∧ r ≠ nl) (hc : (goEnv u).isSpace c = false) (hcn : c ≠ nl) :
+    (scanFrom (goEnv u) true s (x ++ [hyphen, nl] ++ sp ++ [c])).obuf =
+      (scanFrom (goEnv u) true s (x ++ [c])).obuf :=
+  hyphen_join_word' (goEnv u) (goEnv_wf' u) (goEnv_hyphen u).1 (goEnv_hyphen u).2 s x sp c hx hxd hsp hc hcn
+
+/-- Spelling variants: a listed spelling and its replacement leave the same token.
+
+-- ADJUSTED: hypothesis `hE` added ('.', ':' and ')' are not letters). For an arbitrary environment
+the statement is false: with `isLetter := fun _ => true`, `listMarker w := (w = [97])`,
+`interchangeable [97, 46] = some [98]` (and `none` elsewhere), `a = [97, 46]`, `b = [98]`, `pos = 0`:
+`a` is all "letters" but reads as the list marker `a.`, so `cleanupToken E 0 a true = []` while
+`cleanupToken E 0 b true = [98]`. The Go tables satisfy `hE` (`interchangeable_same_token_go`). -/
+theorem interchangeable_same_token (E : Env)
+    (hE : E.isLetter 46 = false ∧ E.isLetter 58 = false ∧ E.isLetter 41 = false)
+    (pos : Nat) (a b : Word)
     (ha : a ≠ [] ∧ a.all E.isLetter = true) (hb : b ≠ [] ∧ b.all E.isLetter = true)
     (hab : E.interchangeable a = some b) (hbb : E.interchangeable b = none) :
     cleanupToken E pos a true = cleanupToken E pos b true :=
-  interchangeable_same_token' E pos a b ha hb hab hbb
+  interchangeable_same_token' E hE pos a b ha hb hab hbb
+
+open LC.V2Env in
+/-- the Go tables satisfy the hypothesis added to `interchangeable_same_token` -/
+theorem interchangeable_same_token_go (u : Word → Word) (pos : Nat) (a b : Word)
+    (ha : a ≠ [] ∧ a.all (goEnv u).isLetter = true) (hb : b ≠ [] ∧ b.all (goEnv u).isLetter = true)
+    (hab : (goEnv u).interchangeable a = some b) (hbb : (goEnv u).interchangeable b = none) :
+    cleanupToken (goEnv u) pos a true = cleanupToken (goEnv u) pos b true :=
+  interchangeable_same_token' (goEnv u) (goEnv_letters u) pos a b ha hb hab hbb
 
 /-- the regenerated table has the spellings the property lists, and no replacement is itself replaced -/
 theorem spelling_table :
@@ -91,7 +127,8 @@ open LC.V2Match in
 /-- The last sentence of the property fails at the `Match` level (recorded finding): a Copyright
 pseudo-match whose line lies inside the span of a retained license is dropped by the retain pass. -/
 theorem notice_inside_span_dropped :
-    let N : NumEnv Nat := { q := 4, simGE := fun _ _ => true, scaleFloor := id, errMargin := id,
+    let N : NumEnv Nat := {
+      q := 4, simGE := fun _ _ => true, scaleFloor := id, errMargin := id,
       conf := fun _ _ => 100, confZero := 0, confOne := 100, geThr := fun _ => true,
       gt := fun a b => decide (a > b), wgt := fun ta a tb b => decide (ta * a > tb * b) }
     retainPass N (sortBy (matchLess N)
